@@ -871,7 +871,7 @@ def run(ctx: core.Ctx):
         what = (verdict(small, rr) if "__error__" not in rr else f"real code raised {rr['__error__']}: {rr['text'][:300]}") or w
         ctx.violation("real output violates C04: " + classify(what, small), {"case": small, "observed": rr, "detail": what}, kind="concrete",
                       match_info={"failure": classify(what, small), "kind": small["kind"], "seed": small.get("seed")})
-    if not concrete:
+    if not ctx.violations:  # no NEW concrete violation (none at all, or only ones a registered known finding describes)
         if broken:
             c, w = broken[0]
             ctx.violation("correspondence Estimators model <-> estimators no longer checks",
